@@ -366,6 +366,22 @@ def run_shard(desc, tier):
                 apps[i] = (lambda m=m, make=make: (lambda *a: make(m)(*a)))()
             for method in ("GET", "HEAD"):
                 compare(r, f"small:{name}", apps, SV.AReq(method=method), method)
+            # a response object is an application: used for several requests it must answer each like a fresh object would
+            import time as _time
+            real_time = _time.time
+            _time.time = lambda: 1_800_000_000.25
+            try:
+                for i in ("wsgi", "asgi"):
+                    shared = make(mod(i))
+                    for step, method in enumerate(("GET", "HEAD", "GET")):
+                        a = observe(run(i, shared, SV.AReq(method=method)))
+                        b = observe(run(i, make(mod(i)), SV.AReq(method=method)))
+                        r.count("evaluations")
+                        if a != b:
+                            r.violation("small:sameobject", {"recipe": f"small:{name}", "request": {"iface": i, "step": step, "method": method}},
+                                        f"{i} response object of recipe {name} used for several requests: answer {step} ({method}) {a!r:.200} differs from a fresh object's {b!r:.200}")
+            finally:
+                _time.time = real_time
         r.sample({"recipe": recs[0][0], "methods": ["GET", "HEAD"]})
     elif kind == "streams":
         from .c05 import stream_recipes, build_stream
